@@ -4,7 +4,7 @@
    i256 limbs: B = 2^64, H = 2^127 abstractly as any B, H with 0 < B, B*B = 2H. *)
 From Coq Require Import List ZArith NArith Bool.
 From AV Require Import Model.C12_Int Model.C12_Kernel Model.C12_I256 Model.C12_Bool Model.C12_Agg.
-From AV Require Import Proofs.C12_Int Proofs.C12_Kernel Proofs.C12_I256 Proofs.C12_Bool Proofs.C12_Agg.
+From AV Require Import Proofs.C12_Int Proofs.C12_Kernel Proofs.C12_I256 Proofs.C12_I256Mul Proofs.C12_Bool Proofs.C12_Agg.
 Import ListNotations.
 Local Open Scope Z_scope.
 
@@ -163,6 +163,32 @@ Theorem i256_checked_neg_exact : forall (B H : Z), 0 < B -> B * B = 2 * H -> for
   end.
 Proof. exact checked_neg_spec. Qed.
 Print Assumptions i256_checked_neg_exact.
+
+(* checked_mul (abs-split, overflow-checked partial products, sign restore, final sign check):
+   Some exact product iff representable *)
+Theorem i256_checked_mul_exact : forall (B H : Z), 0 < B -> B * B = 2 * H -> forall a b : i256,
+  (0 <= low a < 2 * H /\ - H <= high a < H) -> (0 <= low b < 2 * H /\ - H <= high b < H) ->
+  match checked_mul256 B H a b with
+  | Some r => (0 <= low r < 2 * H /\ - H <= high r < H) /\ val H r = val H a * val H b
+              /\ in_range true (H * (2 * H)) (val H a * val H b) = true
+  | None => in_range true (H * (2 * H)) (val H a * val H b) = false
+  end.
+Proof. exact checked_mul_spec. Qed.
+Print Assumptions i256_checked_mul_exact.
+
+(* div_rem: zero and MIN / -1 detection, |a|, |b|, exact unsigned division of the magnitudes
+   (the Knuth long division of bigint/div.rs is abstracted as n / d, n mod d), sign restore:
+   truncating quotient and remainder with the sign of the dividend *)
+Theorem i256_div_rem_exact : forall (B H : Z), 0 < B -> B * B = 2 * H -> forall a b : i256,
+  (0 <= low a < 2 * H /\ - H <= high a < H) -> (0 <= low b < 2 * H /\ - H <= high b < H) ->
+  match div_rem256 H a b with
+  | inr k => (k = E_DIVZERO /\ val H b = 0) \/ (k = E_OVERFLOW /\ val H a = - (H * (2 * H)) /\ val H b = -1)
+  | inl (q, r) => val H b <> 0 /\
+                  (0 <= low q < 2 * H /\ - H <= high q < H) /\ (0 <= low r < 2 * H /\ - H <= high r < H) /\
+                  val H q = Z.quot (val H a) (val H b) /\ val H r = Z.rem (val H a) (val H b)
+  end.
+Proof. exact div_rem_spec. Qed.
+Print Assumptions i256_div_rem_exact.
 
 Theorem i256_cmp_exact : forall (B H : Z), 0 < B -> B * B = 2 * H -> forall a b : i256,
   (0 <= low a < 2 * H /\ - H <= high a < H) -> (0 <= low b < 2 * H /\ - H <= high b < H) ->
